@@ -1168,6 +1168,9 @@ def gen_case(rng, profile, quick=True):
     import random
     c = {"profile": profile, "seed": rng.randrange(1 << 30), "maxc": 65535, "lbs": 32768, "latency": True,
          "flows": [], "iters": 60}
+    upload_side = profile == "reuse_up"           # the upload-side mirror of "reuse", always (see below)
+    if upload_side:
+        profile = "reuse"
     r2 = random.Random(c["seed"] ^ 0x2b5)       # later-added dimensions draw here: the older ones keep their sequence
     r3 = random.Random(c["seed"] ^ 0x6a31)      # ... (endpoint failure next to an idle endpoint)
     nflows = rng.choice([1, 1, 2, 3, 4])
@@ -1363,6 +1366,30 @@ def gen_case(rng, profile, quick=True):
                 dst["fault"] = ("send", 0, r3.choice([errno.EPIPE, errno.ECONNRESET, errno.ETIMEDOUT, errno.EHOSTUNREACH]))
                 app["data"] = r3.choice([1, 5, 300, 5000])
         c["flows"].append((app, dst))
+    r4 = random.Random(c["seed"] ^ 0x51c9)
+    if profile == "reuse" and (r4.random() < 0.45 or upload_side):
+        # the upload-side mirror (round l, C06-l): an upload larger than the latency budget whose PING is held back by
+        # a link that stops draining, so the client is paused with upload bytes still in the application's wrapper;
+        # meanwhile the destination resets the connection (STOP_SENDING + EOF come back), the flow finishes, and with
+        # a tiny MAX_CHANNEL its identifier is handed to the next connection BEFORE the PING reply arrives
+        c["lbs"] = r4.choice([2048, 4096, 8192])
+        c["latency"] = True
+        c["maxc"] = r4.choice([1, 1, 1, 2, 3])
+        c["iters"] = 200
+        fidx = r4.randint(0, 1)       # the destination's send() call that fails; the link carries CONNECT + that many
+        c["link_stall"] = {"side": "c", "after": fidx + 2 + r4.randint(0, 1), "refuse": r4.randint(60, 140)}
+        keep = {k: c["flows"][0][0][k] for k in ("dial",) if k in c["flows"][0][0]}
+        app0 = dict({"tag": 1, "data": c["lbs"] * 2 + r4.choice([2049, 6000, 20000]), "close": r4.random() < 0.7,
+                     "p_recv": 1.0, "chunks": [r4.choice([2048, 4096, 65536])]}, **keep)
+        dst0 = {"tag": 2, "data": r4.choice([0, 0, 3]), "close": False, "connect": ["d"],
+                "fault": ("send", fidx, r4.choice([errno.ECONNRESET, errno.ECONNRESET, errno.ETIMEDOUT, errno.EHOSTUNREACH, errno.EPIPE])),
+                "faulty": True}
+        c["flows"][0] = (app0, dst0)
+        while len(c["flows"]) < c["maxc"] + 8:
+            i = len(c["flows"])
+            c["flows"].append(({"tag": 2 * i + 1, "data": r4.choice([1, 50, 300, 5000]), "close": True},
+                               {"tag": 2 * i + 2, "data": r4.choice([0, 3, 300]), "close": r4.random() < 0.8,
+                                "connect": ["d"]}))
     if profile == "fault" and c.get("platform") is None:
         r = rng.random()
         if r < 0.06 and c["flows"]:
@@ -1850,6 +1877,32 @@ def check_oracles(w):
         for what, det in out["C01"]:
             if det.get("flow") in healthy:
                 out["C08"].append(("a flow with no fault of its own, next to a failing one: " + what, det))
+    # C06 "flows are kept apart": bytes delivered on one flow that are bytes another flow's endpoint wrote (the C01
+    # prefix oracles above say where the delivered stream stops being this flow's own; here the wrong bytes are looked
+    # up in what the endpoints of the OTHER flows wrote — e.g. a finished flow's data sent under an identifier that
+    # has meanwhile been handed to a new connection)
+    if not stale:
+        for f, app, dst in flist:
+            if dst is None:
+                continue
+            for got, own, way, pick in ((dst.wr, app.rd, "destination", lambda a, d: a.rd),
+                                        (app.wr, dst.rd, "application", lambda a, d: d.rd)):
+                if own.startswith(got):
+                    continue
+                n = first_difference(got, own)["first_wrong_byte_at_offset"]
+                piece = bytes(got[n:n + 48])
+                if len(piece) < 16:
+                    continue
+                for g, a2, d2 in flist:
+                    if g == f or d2 is None:
+                        continue
+                    at = bytes(pick(a2, d2)).find(piece)
+                    if at >= 0:
+                        out["C06"].append(("bytes written on one flow were delivered on another flow (to its %s)" % way,
+                                           {"delivered_on_flow": f, "written_on_flow": g, "at_delivered_offset": n,
+                                            "at_written_offset": at, "bytes": len(piece),
+                                            "identifiers": [int(getattr(w.prox["c"][x].wrap2, "channel", -1)) for x in (f, g)]}))
+                        break
     for side in ("c", "s"):
         seen = {}
         m = w.mux[side]
@@ -2039,7 +2092,7 @@ def stream_check(ctx, prop, profiles, n_quick, n_thorough, tail_profiles=()):
         for c_ in endpoint_failure_cases():
             yield c_
         for p_ in tail_profiles:
-            for _ in range(10 if ctx.quick() else 150):
+            for _ in range((10 if ctx.quick() else 150) * (4 if p_ == "reuse_up" else 1)):
                 yield gen_case(rng, p_, ctx.quick())
 
     for i, case in enumerate(cases()):
